@@ -140,10 +140,11 @@ class Ref(object):
             elif op == "cancel":
                 pass
             elif op == "genstart":
-                self.gens[(tid, st["gid"])] = [["g", i, ["v", st["kind"], i]] for i in range(st["n"] + (1 if st["mode"] == "span" else 0))]
+                self.gens[(tid, st["gid"])] = (st, [["g", i, ["v", st["kind"], i]] for i in range(st["n"] + (1 if st["mode"] == "span" else 0))])
             elif op == "gennext":
-                rest = self.gens.get((tid, st["gid"]), [])
-                got.append(["gen", rest[:st["count"]]])
+                rest = self.gens.get((tid, st["gid"]), (None, []))[1]
+                rd = [scope["sv"][0]] if self.prog.get("tool_reads") else []     # the body runs in the scope of whoever advances it
+                got.append(["gen", [v + rd for v in rest[:st["count"]]]])
                 del rest[:st["count"]]
             elif op == "mk":
                 self.defs[st["task"]["id"]] = (st["task"], {"sv": dict(scope["sv"]), "attr": dict(scope["attr"])})
@@ -151,9 +152,10 @@ class Ref(object):
                 raise AssertionError(op)
 
     # ---- library tools: what the documented behaviour of each tool gives sequentially ------------
-    def tool(self, s):
+    def tool(self, s, scope):
         name = s[1]
         iv = lambda kind, arg: ["v", kind, arg]
+        rd = [scope["sv"][0]] if self.prog.get("tool_reads") else []      # what a tool body reads: the caller's dynamic scope
         if name == "dd":
             k, kind = s[2], s[3]
             tag = "dd-twin" if len(s) > 4 and s[4] else "dd"
@@ -165,12 +167,12 @@ class Ref(object):
         if name == "alru":
             return ["ok", ["alru", s[2], iv(s[3], s[2])]]
         if name == "agen":
-            return ["ok", [["g", i, iv(s[3], i)] for i in range(s[2] + (1 if s[5] == "span" else 0))]]
+            return ["ok", [["g", i, iv(s[3], i)] + rd for i in range(s[2] + (1 if s[5] == "span" else 0))]]
         if name in ("amap", "asorted", "amin", "amax", "afilter"):
             k, n, kind = s[2], s[3], s[4]
             xs = list(range(k + n - 1, k - 1, -1))
             if name == "amap":
-                return ["ok", list(xs)]
+                return ["ok", [[x] + rd for x in xs] if rd else list(xs)]
             if name == "afilter":
                 return ["ok", [x for x in xs if x % 2 == 0]]
             if name == "asorted":
@@ -179,13 +181,13 @@ class Ref(object):
                 return ["exc", "ValueError"]
             return ["ok", min(xs) if name == "amin" else max(xs)]
         if name == "retry":
-            return ["ok", ["retry", s[2], 2, iv(s[3], s[2])]]
+            return ["ok", ["retry", s[2], 2, iv(s[3], s[2])] + rd]
         if name == "cwc":
             if s[2] % 4 == 2:
                 return ["exc", ["cwc", s[2]]]        # the function fails inside the context: the failure is the call's failure
             if s[2] % 4 == 3:
                 return ["ok", None]                    # ... unless the context suppresses it, as a with-block would
-            return ["ok", ["plain", s[2], iv(s[3], s[2])]]
+            return ["ok", ["plain", s[2], iv(s[3], s[2])] + rd]
         raise AssertionError(name)
 
     # ---- structures ---------------------------------------------------------------
@@ -237,7 +239,7 @@ class Ref(object):
         if tag == "slazy":
             return ["ok", ["slazy", s[2]]] if s[1] == "ok" else ["exc", ["slazy", s[2]]]
         if tag == "tool":
-            return self.tool(s)
+            return self.tool(s, scope)
         if tag == "bad":
             return ["exc", "TypeError"]
         if tag == "afn":
